@@ -389,6 +389,328 @@ Definition pack_objects (g : graph) : option (graph * pack_result) :=
   if negb ov then Some (g2, Packed) else Some (g2, Failed).
 
 (* ------------------------------------------------------------------------------------------ *)
+(* The advanced path of pack_objects: assign_spaces_hb, find_space_roots_hb, find_subgraph_hb,
+   find_connected_nodes_hb, isolate_subgraph_hb (as of /repo d1b6283), find_subgraph_map_hb,
+   duplicate_subgraph, find_overflows, try_isolating_subgraphs, find_root_of_space, next_space.
+   (try_splitting_subtables / try_promoting_subtables do nothing for objects of type Unknown.)
+   Fresh ids of duplicate_subgraph come from the rest of the id stream.  HashSets that are only
+   probed (visited) are lists; BTreeSets are ascending lists; HashMaps are zmaps.  Recursions carry
+   a fuel that bounds their depth / number of iterations (exhaustion = None, never reached with the
+   fuels supplied below on the generated graphs).  No theorem of Props.v covers this part: it is
+   tied to the code by the correspondence only. *)
+Record agraph := mkAG { ag_g : graph; ag_next_space : Z; ag_roots : zmap Z; ag_ids : list Z }.
+Definition ag_set_g (a : agraph) (g : graph) : agraph := mkAG g (ag_next_space a) (ag_roots a) (ag_ids a).
+Definition set_objs (g : graph) (o : zmap obj) : graph :=
+  mkGraph o (g_nodes g) (g_order g) (g_root g) (g_parents_invalid g).
+Definition set_invalid (g : graph) : graph :=
+  mkGraph (g_objs g) (g_nodes g) (g_order g) (g_root g) true.
+
+(* BTreeSet<ObjectId> *)
+Fixpoint set_insert (x : Z) (s : list Z) : list Z :=
+  match s with
+  | [] => [x]
+  | y :: r => if x <? y then x :: s else if x =? y then s else y :: set_insert x r
+  end.
+Fixpoint set_remove (x : Z) (s : list Z) : list Z :=
+  match s with
+  | [] => []
+  | y :: r => if x =? y then r else y :: set_remove x r
+  end.
+
+(* Graph::find_subgraph_hb *)
+Fixpoint find_subgraph (fuel : nat) (objs : zmap obj) (idx : Z) (visited : list Z) : option (list Z) :=
+  match fuel with
+  | O => None
+  | S f =>
+      if zmem idx visited then Some visited else
+      do o <- mfind idx objs;;
+      fold_left (fun acc l => do v <- acc;; find_subgraph f objs (l_obj l) v) (o_links o)
+                (Some (idx :: visited))
+  end.
+
+(* Graph::find_space_roots_hb: (visited, roots) *)
+Fixpoint space_roots_loop (fuel : nat) (objs : zmap obj) (queue visited roots : list Z)
+  : option (list Z * list Z) :=
+  match queue with
+  | [] => Some (visited, roots)
+  | id :: q =>
+      match fuel with
+      | O => None
+      | S f =>
+          if zmem id visited then space_roots_loop f objs q visited roots else
+          do o <- mfind id objs;;
+          do r <- fold_left (fun acc l =>
+                    do st <- acc;;
+                    let '(q1, v1, r1) := st in
+                    if l_width l =? 4 then
+                      do v2 <- find_subgraph (S (length objs)) objs (l_obj l) v1;;
+                      Some (q1, v2, set_insert (l_obj l) r1)
+                    else Some (q1 ++ [l_obj l], v1, r1))
+                  (o_links o) (Some (q, visited, roots));;
+          let '(q', v', r') := r in
+          space_roots_loop f objs q' v' r'
+      end
+  end.
+
+(* Graph::find_connected_nodes_hb: state (targets, visited, connected) *)
+Fixpoint find_connected (fuel : nat) (objs : zmap obj) (nodes : zmap node) (id : Z)
+  (st : list Z * list Z * list Z) : option (list Z * list Z * list Z) :=
+  match fuel with
+  | O => None
+  | S f =>
+      let '(targets, visited, connected) := st in
+      if zmem id visited then Some st else
+      let visited := id :: visited in
+      let tc := if zmem id targets then (set_remove id targets, set_insert id connected)
+                else (targets, connected) in
+      do nd <- mfind id nodes;;
+      do st1 <- fold_left (fun acc p => do s <- acc;; find_connected f objs nodes (fst p) s)
+                          (n_parents nd) (Some (fst tc, visited, snd tc));;
+      do o <- mfind id objs;;
+      fold_left (fun acc l => do s <- acc;; find_connected f objs nodes (l_obj l) s) (o_links o) (Some st1)
+  end.
+
+(* Graph::find_subgraph_map_hb *)
+Fixpoint find_subgraph_map (fuel : nat) (objs : zmap obj) (idx : Z) (m : zmap Z) : option (zmap Z) :=
+  match fuel with
+  | O => None
+  | S f =>
+      do o <- mfind idx objs;;
+      fold_left (fun acc l =>
+                   do m1 <- acc;;
+                   match mfind (l_obj l) m1 with
+                   | None => find_subgraph_map f objs (l_obj l) (minsert (l_obj l) 1 m1)
+                   | Some c => Some (minsert (l_obj l) (c + 1) m1)
+                   end) (o_links o) (Some m)
+  end.
+
+Definition set_link_obj (l : link) (id : Z) : link := mkLink (l_pos l) (l_width l) id (l_adj l).
+
+(* Graph::duplicate_subgraph: (graph state, dupes, id of the copy) *)
+Fixpoint duplicate_subgraph (fuel : nat) (a : agraph) (root : Z) (dupes : zmap Z) (space : Z)
+  : option (agraph * zmap Z * Z) :=
+  match fuel with
+  | O => None
+  | S f =>
+      match mfind root dupes with
+      | Some existing => Some (a, dupes, existing)
+      | None =>
+          match ag_ids a with
+          | [] => None
+          | new_root :: rest =>
+              let a0 := mkAG (set_invalid (ag_g a)) (ag_next_space a) (ag_roots a) rest in
+              do o <- mfind root (g_objs (ag_g a0));;
+              do r <- fold_left (fun acc l =>
+                        do st <- acc;;
+                        let '(a1, d1, ls) := st in
+                        do r1 <- duplicate_subgraph f a1 (l_obj l) d1 space;;
+                        let '(a2, d2, nid) := r1 in
+                        Some (a2, d2, ls ++ [set_link_obj l nid]))
+                      (o_links o) (Some (a0, dupes, []));;
+              let '(a3, d3, links') := r in
+              let node := mkNode (wrap_u 32 (blen (o_bytes o))) 0 0 space [] 0 in
+              let g3 := ag_g a3 in
+              let g4 := mkGraph (minsert new_root (mkObj (o_bytes o) links') (g_objs g3))
+                                (minsert new_root node (g_nodes g3)) (g_order g3) (g_root g3)
+                                (g_parents_invalid g3) in
+              Some (ag_set_g a3 g4, minsert root new_root d3, new_root)
+          end
+      end
+  end.
+
+(* Graph::isolate_subgraph_hb(&mut roots) -> bool *)
+Definition isolate_subgraph (a : agraph) (roots : list Z) : option (agraph * list Z * bool) :=
+  do g1 <- update_parents (ag_g a);;
+  let depth := S (S (length (g_objs g1))) in
+  do sub <- fold_left (fun acc root =>
+              do m <- acc;;
+              do nd <- mfind root (g_nodes g1);;                       (* self.nodes[root] *)
+              let wide := Z.of_nat (length (filter (fun p => negb (snd p =? 2)) (n_parents nd))) in
+              find_subgraph_map depth (g_objs g1) root (minsert root wide m))
+            roots (Some []);;
+  let next_space := ag_next_space a + 1 in
+  let a1 := mkAG g1 next_space (minsert next_space (Z.of_nat (length roots)) (ag_roots a)) (ag_ids a) in
+  (* duplicate what is reachable from outside *)
+  do r2 <- fold_left (fun acc kv =>
+              do st <- acc;;
+              let '(a2, idm) := st in
+              do nd <- mfind (fst kv) (g_nodes (ag_g a2));;            (* self.nodes[id] *)
+              if snd kv <? nparents nd then
+                do r <- duplicate_subgraph (S (S (length (g_objs (ag_g a2))))) a2 (fst kv) idm next_space;;
+                Some (fst (fst r), snd (fst r))
+              else Some (a2, idm))
+            sub (Some (a1, []));;
+  let '(a2, id_map) := r2 in
+  (* move the rest of the subgraph to the new space and remap its links *)
+  do g3 <- fold_left (fun acc kv =>
+              do g <- acc;;
+              match mfind (fst kv) id_map with
+              | Some _ => Some g
+              | None =>
+                  do nd <- mfind (fst kv) (g_nodes g);;                (* nodes.get_mut(id).unwrap() *)
+                  do o <- mfind (fst kv) (g_objs g);;                  (* objects.get_mut(id).unwrap() *)
+                  let links' := map (fun l => match mfind (l_obj l) id_map with
+                                              | Some nid => set_link_obj l nid
+                                              | None => l end) (o_links o) in
+                  Some (mkGraph (minsert (fst kv) (mkObj (o_bytes o) links') (g_objs g))
+                                (minsert (fst kv) (set_space nd next_space) (g_nodes g))
+                                (g_order g) (g_root g) (g_parents_invalid g))
+              end)
+            sub (Some (ag_g a2));;
+  match id_map with
+  | [] => Some (ag_set_g a2 g3, roots, false)
+  | _ =>
+      (* redirect the wide links that point at a duplicated root *)
+      do g4 <- fold_left (fun acc root =>
+                  do g <- acc;;
+                  match mfind root id_map with
+                  | None => Some g
+                  | Some new_id =>
+                      do nd <- mfind root (g_nodes g);;                (* self.nodes[root] *)
+                      fold_left (fun acc2 p =>
+                                   do g' <- acc2;;
+                                   if negb (snd p =? 2) then
+                                     do o <- mfind (fst p) (g_objs g');;  (* get_mut(parent_id).unwrap() *)
+                                     let links' := map (fun l => if (l_obj l =? root) && negb (l_width l =? 2)
+                                                                 then set_link_obj l new_id else l) (o_links o) in
+                                     Some (set_objs g' (minsert (fst p) (mkObj (o_bytes o) links') (g_objs g')))
+                                   else Some g')
+                                (n_parents nd) (Some (set_invalid g))
+                  end)
+                roots (Some g3);;
+      let roots' := fold_left (fun rs kv => if zmem (fst kv) rs then set_insert (snd kv) (set_remove (fst kv) rs) else rs)
+                              id_map roots in
+      Some (ag_set_g a2 g4, roots', true)
+  end.
+
+(* Graph::assign_spaces_hb -> bool *)
+Fixpoint assign_spaces_loop (fuel : nat) (a : agraph) (roots visited : list Z) : option agraph :=
+  match roots with
+  | [] => Some a
+  | next :: _ =>
+      match fuel with
+      | O => None
+      | S f =>
+          do c <- find_connected (S (S (length (g_nodes (ag_g a))))) (g_objs (ag_g a)) (g_nodes (ag_g a)) next
+                                 (roots, visited, []);;
+          let '(roots', visited', connected) := c in
+          do r <- isolate_subgraph a connected;;
+          assign_spaces_loop f (fst (fst r)) roots' visited'
+      end
+  end.
+Definition assign_spaces (a : agraph) : option (agraph * bool) :=
+  do g1 <- update_parents (ag_g a);;
+  let n := length (g_objs g1) in
+  do vr <- space_roots_loop ((n + 2) * 4000) (g_objs g1) [g_root g1] [] [];;
+  let '(visited, roots) := vr in
+  match roots with
+  | [] => Some (ag_set_g a g1, false)
+  | _ =>
+      let inverted := filter (fun x => negb (zmem x visited)) (g_order g1) in
+      do a' <- assign_spaces_loop (S (length roots)) (ag_set_g a g1) roots inverted;;
+      Some (a', true)
+  end.
+
+(* Graph::find_overflows: (parent, child) of every overflowing link *)
+Fixpoint find_overflow_links (nodes : zmap node) (pid : Z) (parent : node) (ls : list link)
+  : option (list (Z * Z)) :=
+  match ls with
+  | [] => Some []
+  | l :: r =>
+      do child <- mfind (l_obj l) nodes;;
+      do rel <- chk_u 32 (n_pos child - n_pos parent);;
+      do rest <- find_overflow_links nodes pid parent r;;
+      Some (if max_value (l_width l) <? rel then (pid, l_obj l) :: rest else rest)
+  end.
+Fixpoint find_overflows_objs (nodes : zmap node) (objs : zmap obj) : option (list (Z * Z)) :=
+  match objs with
+  | [] => Some []
+  | (pid, o) :: r =>
+      do parent <- mfind pid nodes;;
+      do a <- find_overflow_links nodes pid parent (o_links o);;
+      do b <- find_overflows_objs nodes r;;
+      Some (a ++ b)
+  end.
+Definition find_overflows (g : graph) : option (list (Z * Z)) := find_overflows_objs (g_nodes g) (g_objs g).
+
+(* Graph::find_root_of_space *)
+Fixpoint find_root_of_space (fuel : nat) (nodes : zmap node) (x : Z) : option Z :=
+  match fuel with
+  | O => None
+  | S f =>
+      do nd <- mfind x nodes;;
+      match n_parents nd with
+      | [] => None                                                     (* parents[0] *)
+      | (p, _) :: _ =>
+          do pn <- mfind p nodes;;
+          if negb (n_space pn =? n_space nd) then Some x else find_root_of_space f nodes p
+      end
+  end.
+
+(* Graph::try_isolating_subgraphs -> bool *)
+Definition try_isolating_subgraphs (a : agraph) (overflows : list (Z * Z)) : option (agraph * bool) :=
+  let g := ag_g a in
+  do to_isolate <- fold_left (fun acc ov =>
+        do m <- acc;;
+        do pn <- mfind (fst ov) (g_nodes g);;
+        let parent_space := n_space pn in
+        if negb (2 <=? parent_space) then Some m else
+        do nr <- mfind parent_space (ag_roots a);;                     (* num_roots_per_space[&space] *)
+        if nr <? 2 then Some m else
+        do cn <- mfind (snd ov) (g_nodes g);;
+        if negb (n_space cn =? parent_space) then None else            (* assert_eq! *)
+        do root <- find_root_of_space (S (length (g_nodes g))) (g_nodes g) (fst ov);;
+        do rn <- mfind root (g_nodes g);;
+        if negb (n_space rn =? parent_space) then None else            (* assert_eq! *)
+        let cur := match mfind parent_space m with Some s => s | None => [] end in
+        Some (minsert parent_space (set_insert root cur) m))
+      overflows (Some []);;
+  match to_isolate with
+  | [] => Some (a, false)
+  | _ =>
+      do a' <- fold_left (fun acc kv =>
+            do a1 <- acc;;
+            do n_total <- mfind (fst kv) (ag_roots a1);;
+            let roots := firstn (Z.to_nat (n_total / 2)) (snd kv) in
+            do r <- isolate_subgraph a1 roots;;
+            let a2 := fst (fst r) in
+            do n_now <- mfind (fst kv) (ag_roots a2);;
+            do n_new <- chk_u 64 (n_now - Z.of_nat (length roots));;
+            Some (mkAG (ag_g a2) (ag_next_space a2) (minsert (fst kv) n_new (ag_roots a2)) (ag_ids a2)))
+          to_isolate (Some a);;
+      Some (a', true)
+  end.
+
+(* the loop of pack_objects after space assignment *)
+Fixpoint isolate_loop (fuel : nat) (a : agraph) : option (agraph * bool) :=
+  match fuel with
+  | O => None
+  | S f =>
+      do ovs <- find_overflows (ag_g a);;
+      match ovs with
+      | [] => Some (a, true)
+      | _ =>
+          do r <- try_isolating_subgraphs a ovs;;
+          if snd r then
+            do g' <- sort_shortest_distance (ag_g (fst r));;
+            isolate_loop f (ag_set_g (fst r) g')
+          else Some (fst r, false)
+      end
+  end.
+
+(* Graph::pack_objects, all of it (for objects of type Unknown) *)
+Definition pack_objects_full (g : graph) (ids : list Z) : option (graph * bool) :=
+  do r <- basic_sort g;;
+  let '(g1, ok) := r in
+  if ok then Some (g1, true) else
+  do ar <- assign_spaces (mkAG g1 2 [] ids);;
+  do g2 <- sort_shortest_distance (ag_g (fst ar));;
+  do ov <- has_overflows g2;;
+  if negb ov then Some (g2, true) else
+  do res <- isolate_loop (2 * length (g_nodes g2) + 8) (ag_set_g (fst ar) g2);;
+  Some (ag_g (fst res), snd res).
+
+(* ------------------------------------------------------------------------------------------ *)
 (* Graph::serialize                                                                            *)
 
 (* out.get_mut(p..).unwrap() then &mut at[..len] then copy_from_slice *)
@@ -540,6 +862,18 @@ Definition dump_graph (objs : zmap obj) (root : Z) : result :=
       end
   end.
 
+(* dump_table with the complete pack_objects; [ids] = what is left of the id stream after the store *)
+Definition dump_graph_full (objs : zmap obj) (root : Z) (ids : list Z) : result :=
+  match from_objects objs root with
+  | None => RPanic
+  | Some g =>
+      match pack_objects_full g ids with
+      | None => RPanic
+      | Some (g', true) => match serialize g' with Some out => RBytes out | None => RPanic end
+      | Some (_, false) => RFailed
+      end
+  end.
+
 Definition dump_table_perm (perm : list (obj * Z) -> list (obj * Z)) (d : dag) (ids : list Z) : result :=
   match add_table (S (length d)) d 0%nat (mkStore [] ids) with
   | None => RBadCase
@@ -621,7 +955,8 @@ Definition widths_ok (d : dag) : bool :=
 
    case = (dag, (base, step), (tag, rle)) : the real dump_table on the described object returned
    tag 0 = Ok(bytes) with run-length encoding rle, 1 = Err(PackingFailed), 2 = panic.
-   The model is run with the id stream base, base+step, base+2*step, ...                        *)
+   The model (complete pack_objects incl. space assignment / isolation / duplication) is run with the id
+   stream base, base+step, base+2*step, ...                                                      *)
 Fixpoint rle_go (cur cnt : Z) (l : list Z) : list (Z * Z) :=
   match l with
   | [] => [(cur, cnt)]
@@ -644,11 +979,11 @@ Definition case_ty : Type := dag * (Z * Z) * (Z * list (Z * Z)).
    with the implementation. *)
 Definition check_case (c : case_ty) : bool :=
   let '(d, (base, step), (tag, expect)) := c in
-  match add_table (S (length d)) d 0%nat (mkStore [] (id_stream base step (4 * length d + 4))) with
+  match add_table (S (length d)) d 0%nat (mkStore [] (id_stream base step (40 * length d + 40))) with
   | None => false
   | Some (st, root) =>
       let objs := objs_of_store (st_objs st) in
-      match dump_graph objs root with
+      match dump_graph_full objs root (st_ids st) with
       | RBytes out =>
           (tag =? 0) && list_eqb pair_eqb (rle out) expect &&
           (negb (widths_ok d) ||
@@ -656,11 +991,11 @@ Definition check_case (c : case_ty) : bool :=
            | Some g' => graph_hypsb objs root &&
                         layout_okb (g_objs g') (g_order g') && positions_matchb g' &&
                         (match g_order g' with x :: _ => x =? root | [] => false end)
-           | None => false
+           | None => true                (* success on the space-assignment path: no theorem applies *)
            end)
       | RFailed => tag =? 1
       | RPanic => tag =? 2
-      | RBeyond => true                 (* no prediction: only the implementation-only oracle applies *)
+      | RBeyond => false
       | RBadCase => false
       end
   end.
